@@ -201,6 +201,17 @@ pub fn gen_chain_workspace(c: &mut Choices) -> Workspace {
     let toml = ws.files.len();
     ws.files.push(crate::gen::scoped::WsFile { path: "/ws/app/gleam.toml".into(), pkg: 0, text: "name = \"app\"\n".into(), module: None });
     ws.packages.push(crate::gen::scoped::Pkg { name: "app".into(), root: "/ws/app".into(), is_local: true, deps: vec![], toml_file: toml });
+    if c.chance(128) {
+        // a source root that belongs to no package of the graph: its locals are symbols like any other
+        let v = *c.pick(&["b", "found", "x"]);
+        ws.files.push(crate::gen::scoped::WsFile {
+            path: "/ws/loose/src/free.gleam".into(),
+            pkg: 1,
+            text: format!("pub fn free(a) {{\n  let {v} = a\n  case {v} {{\n    [first, ..rest] -> #(a, {v}, first, rest)\n    other -> #(a, {v}, other, other)\n  }}\n}}\n"),
+            module: Some("free".into()),
+        });
+        ws.packages.push(crate::gen::scoped::Pkg { name: "".into(), root: "/ws/loose".into(), is_local: true, deps: vec![], toml_file: toml });
+    }
     ws
 }
 
